@@ -8,9 +8,9 @@
    parameters; hyper-parameters are arbitrary rationals; histories are arbitrary lists of events
    Backward / ZeroGrad / Step / Freeze i / Unfreeze i.  Since the history is arbitrary the equations hold after
    every prefix, i.e. for the whole trajectory. *)
-From Coq Require Import List Bool Arith QArith Reals String.
+From Coq Require Import List Bool Arith QArith Reals String Lra.
 Import ListNotations.
-From SG Require Import State.ArrOps State.ArrOpsR Gen.GenOptim State.Optim State.OptimSpec Proofs.OptimProofs.
+From SG Require Import State.ArrOps State.ArrOpsR Gen.GenOptim State.Optim State.OptimSpec Proofs.OptimProofs Proofs.OptimConsequences.
 
 Theorem sgd_refines_spec : forall (h : sgd_hyper) (params : list (vec * bool * bool)) (hist : list (ev vec)),
   map data (ps (sgd_model fun_ops h params hist)) =
@@ -120,6 +120,48 @@ Theorem inplace_same_shape_dtype : forall w, In w all_writes ->
 Proof. exact writes_inplace. Qed.
 Goal True. idtac "ASSUMPTIONS inplace_same_shape_dtype". Abort.
 Print Assumptions inplace_same_shape_dtype.
+
+(* ---- consequences of the refinement on concrete histories (Proofs/OptimConsequences.v) ----
+   The generated steps, driven through the hand model, produce the textbook trajectories: they show that the specification the
+   refinement theorems speak of is the published rule (not a restatement of the code) and they are what a user computes by hand. *)
+
+(* plain SGD (no momentum, no weight decay): one backward with gradient g and n steps WITHOUT zero_grad consume the same
+   accumulated gradient n times: theta - n * lr * g, for every n, every lr, every parameter size. *)
+Theorem sgd_plain_is_gradient_descent : forall (h : sgd_hyper) (theta g : vec) (n : nat),
+  Qeq_bool (sgd_momentum h) 0 = true -> Qeq_bool (sgd_weight_decay h) 0 = true -> sgd_maximize h = false ->
+  map data (ps (sgd_model fun_ops h [(theta, true, true)] (Backward [Some g] :: repeat Step n))) =
+  [fun k => (theta k - INR n * (Q2R (sgd_lr h) * g k))%R].
+Proof. exact sgd_model_plain_steps. Qed.
+Goal True. idtac "ASSUMPTIONS sgd_plain_is_gradient_descent". Abort.
+Print Assumptions sgd_plain_is_gradient_descent.
+
+(* Adam's first update (bias correction at t = 1, eps = 0, no weight decay): every element moves by exactly lr against the sign
+   of its gradient, whatever the gradient's magnitude — this fails if the step count used for the bias correction is off by one,
+   if the moments are not initialised to zero, or if vhat is not square-rooted. *)
+Theorem adam_first_step_has_magnitude_lr : forall (h : adam_hyper) (theta g : vec),
+  Qeq_bool (adam_weight_decay h) 0 = true -> adam_maximize h = false -> Q2R (adam_epsilon h) = 0%R ->
+  Q2R (adam_beta1 h) <> 1%R -> (Q2R (adam_beta2 h) < 1)%R -> (forall k, g k <> 0%R) ->
+  map data (ps (adam_model fun_ops h [(theta, true, true)] [Backward [Some g]; Step])) =
+  [fun k => (theta k - Q2R (adam_lr h) * (g k / Rabs (g k)))%R].
+Proof. exact adam_model_first_step. Qed.
+Goal True. idtac "ASSUMPTIONS adam_first_step_has_magnitude_lr". Abort.
+Print Assumptions adam_first_step_has_magnitude_lr.
+
+(* a step before any backward changes nothing (no parameter has ever received a gradient) — for any update rule *)
+Theorem step_without_gradient_is_identity : forall SS (update : SS -> vec -> vec -> SS * vec) (l : list (vec * bool * bool)) s0,
+  s_run SS update (s_init SS s0 l) [Step] = s_init SS s0 l.
+Proof. exact @spec_step_without_gradient. Qed.
+Goal True. idtac "ASSUMPTIONS step_without_gradient_is_identity". Abort.
+Print Assumptions step_without_gradient_is_identity.
+
+(* the hypotheses of the two theorems above are met by the default hyper-parameters with eps = 0 *)
+Example adam_first_step_hypotheses_satisfiable :
+  let h := {| adam_lr := 1#1000; adam_beta1 := 9#10; adam_beta2 := 999#1000; adam_epsilon := 0; adam_weight_decay := 0; adam_maximize := false |} in
+  Qeq_bool (adam_weight_decay h) 0 = true /\ adam_maximize h = false /\ Q2R (adam_epsilon h) = 0%R /\
+  Q2R (adam_beta1 h) <> 1%R /\ (Q2R (adam_beta2 h) < 1)%R.
+Proof.
+  cbn. repeat split; unfold Q2R; cbn; try lra.
+Qed.
 
 (* ---- examples: the statements are about something ---- *)
 Local Open Scope Q_scope.
